@@ -1,5 +1,5 @@
-(* Model of core/src/parse/transaction.rs (posting lines as repaired by the F15 "fix:" commit:
-   a line of blanks does not start a posting).  Definitions only. *)
+(* Model of core/src/parse/transaction.rs (as repaired by the "fix:" commits: a line of blanks
+   does not start a posting (F15); metadata may follow the date directly).  Definitions only. *)
 From Coq Require Import List NArith ZArith Bool.
 From Okv Require Import Model.Lit Model.Syntax Model.Comb Model.ParseExpr Model.ParseMeta Model.ParsePosting.
 Import ListNotations.
@@ -17,7 +17,7 @@ Definition posting_indent : parser unit :=
 Definition transaction (fuel : nat) : parser (s_txn * list posting_spans) :=
   d <- context L_txn_date date ;;
   ed <- opt (preceded (chr 61) date) ;;
-  is_shortest <- has_peek line_ending_or_eof ;;
+  is_shortest <- has_peek (alt line_ending_or_eof (void (chr 59))) ;;
   cond (negb is_shortest) space1 ;;;
   cs <- clear_state ;;
   code <- opt (terminated paren_str space0) ;;
